@@ -101,7 +101,7 @@ def run_compdec(sx, cfg, env):
     except (odxref.Reject, KeyError, TypeError, IndexError, AttributeError, ValueError):
         sx.cover("reference-cannot-lay-out")
         return
-    if rp.overlap or cfg["name"] in ("overlap",):
+    if rp.overlap or cfg["name"] in ("overlap", "overlap-three"):
         return
     sx.cover("justified")
     sx.require(len(rp.bytes) <= len(msg), "returned-values-need-no-more-bytes-than-the-message-has")
